@@ -40,6 +40,8 @@ def natList (l : List Nat) : String := if l.isEmpty then "-" else ",".intercalat
 inductive Cmd where
   | op (o : Op)
   | sdump
+  /-- recreate the pools with another preset: the pools' behaviour does not depend on it -/
+  | spec
   | pure (model spec : String)
   | bad
 
@@ -90,6 +92,10 @@ def parseCmd (line : String) : Cmd :=
     | _, _, _, _, _ => .bad
   | ["sreset", a] => match parseU64 a with | some s => .op (.sreset s) | none => .bad
   | ["sdump"] => .sdump
+  | ["spec", a, b, c, d, e, f, g, h] =>
+    match parseNat a, parseNat b, [c, d, e, f, g, h].mapM parseNat with
+    | some size, some mvpc, some _ => if size > 4096 ∨ mvpc < 1 ∨ mvpc > 1048576 then .bad else .spec
+    | _, _, _ => .bad
   | ["select", a, b, c] =>
     match parseNat a, parseList b, parseMsgs c with
     | some root, some members, some msgs =>
@@ -151,6 +157,7 @@ def step (st : Pools × Spec.SPools) (line : String) : (Pools × Spec.SPools) ×
   match parseCmd line with
   | .bad => (st, "bad-op")
   | .sdump => (st, renderSyncModel st.1.sync ++ " | " ++ renderSyncSpec st.2.sync)
+  | .spec => ((Pools.new Cfg.fixed, Spec.SPools.new), "ok | ok")
   | .pure m s => (st, m ++ " | " ++ s)
   | .op o =>
     let (m', a) := st.1.step Cfg.fixed o
